@@ -1,3 +1,5 @@
+//go:build !skip_c19
+
 package props
 
 import (
@@ -312,8 +314,83 @@ func traceNames(t rs.TraceCtx) []string {
 }
 
 // c19Session builds a session that ends in failures at interesting places.
+// c19Hostile is a literal whose rendering is awkward for the report printer:
+// long arrays with empty strings up front, format verbs, renderings around the
+// 20 character abbreviation limit.
+func c19Hostile(r *core.Rng) ast.Node {
+	str := func() ast.Node {
+		n := r.Range(1, 8)
+		s := ""
+		for i := 0; i < n; i++ {
+			s += []string{"%", "%d", "%s", "%v", "100%", "a", " ", "%!", "%%", "xyz"}[r.Intn(10)]
+		}
+		return ast.StrLit{V: s}
+	}
+	switch r.Intn(5) {
+	case 0:
+		n := r.Range(8, 12)
+		es := make([]ast.Node, n)
+		for i := range es {
+			switch r.Intn(6) {
+			case 0, 1, 2:
+				es[i] = ast.StrLit{V: ""}
+			case 3:
+				es[i] = il(int64(r.Intn(10)))
+			case 4:
+				es[i] = ast.StrLit{V: "x"}
+			default:
+				es[i] = ast.ArrayLit{}
+			}
+		}
+		return ast.ArrayLit{Elems: es}
+	case 1:
+		return str()
+	case 2:
+		return ast.ArrayLit{Elems: []ast.Node{str(), il(int64(r.Intn(9))), str()}}
+	case 3:
+		n := r.Range(16, 24)
+		b := make([]byte, n)
+		for i := range b {
+			b[i] = byte('a' + r.Intn(26))
+		}
+		if r.Bool() {
+			b[r.Range(14, n-1)] = '%'
+		}
+		return ast.StrLit{V: string(b)}
+	}
+	n := r.Range(5, 9)
+	es := make([]ast.Node, n)
+	for i := range es {
+		es[i] = il(int64(r.Intn(100)))
+	}
+	return ast.ArrayLit{Elems: es}
+}
+
 func c19Session(r *core.Rng) ([]ast.Node, string) {
-	switch r.Intn(4) {
+	switch r.Intn(5) {
+	case 4: // awkward parameter and operand values
+		fault := []ast.Node{
+			ast.Binary{Op: "-", L: nm("p"), R: il(1)},
+			ast.Index{X: nm("p"), I: il(1000)},
+			ast.Binary{Op: "-", L: nm("q"), R: nm("p")},
+			ast.Unary{Op: "#", X: ast.Binary{Op: "*", L: nm("p"), R: nm("q")}},
+			ast.Binary{Op: "&", L: il(1), R: nm("p")},
+		}[r.Intn(5)]
+		ss := []ast.Node{ast.Assign{Name: "zh", Value: ast.FuncLit{Params: []string{"p", "q"}, Body: fault}}}
+		a, b := c19Hostile(r), c19Hostile(r)
+		switch r.Intn(4) {
+		case 0:
+			return append(ss, icall("zh", a, b)), "hostile-values"
+		case 1:
+			return append(ss, ast.Assign{Name: "zw", Value: ast.FuncLit{Params: []string{"a", "b"}, Body: icall("zh", nm("b"), nm("a"))}}, icall("zw", a, b)), "hostile-values-nested"
+		case 2:
+			return append(ss, ast.Assign{Name: "zg", Value: ast.FuncLit{Params: []string{"a", "b"}, Body: ast.Block{Stmts: []ast.Node{ast.Yield{X: il(0)}, icall("zh", nm("a"), nm("b"))}}}},
+				ast.For{Vars: []string{"e"}, Iters: []ast.Node{icall("zg", a, b)}, Body: nm("e")}), "hostile-values-in-generator"
+		default:
+			return append(ss, ast.Assign{Name: "zv", Value: a}, ast.Assign{Name: "zu", Value: b},
+				ast.Assign{Name: "zw", Value: ast.FuncLit{Params: []string{"k"}, Body: ast.If{Cond: ast.Binary{Op: "<=", L: nm("k"), R: il(0)}, Then: icall("zh", nm("zv"), nm("zu")), Else: icall("zw", ast.Binary{Op: "-", L: nm("k"), R: il(1)})}}},
+				icall("zw", il(int64(r.Range(0, 6))))), "hostile-values-deep"
+		}
 	case 0:
 		ss, where := failingStatements(r)
 		if where == "parse-error" {
@@ -461,6 +538,6 @@ func init() {
 		Families: []core.Family{
 			{Name: "reports", Count: countFn(12000, 1500000), Run: c19Case},
 		},
-		Floors: []core.Floor{{Key: "reports_checked", Quick: 3000, Thor: 300000}, {Key: "frames_checked", Quick: 8000, Thor: 800000}, {Key: "reports_from_inside_generators", Quick: 500, Thor: 50000}, {Key: "tag:err:", Quick: 7, Thor: 7}, {Key: "tag:op:", Quick: 12, Thor: 12}, {Key: "tag:failure-at:", Quick: 12, Thor: 12}},
+		Floors: []core.Floor{{Key: "reports_checked", Quick: 3000, Thor: 300000}, {Key: "frames_checked", Quick: 8000, Thor: 800000}, {Key: "reports_from_inside_generators", Quick: 500, Thor: 50000}, {Key: "tag:err:", Quick: 7, Thor: 7}, {Key: "tag:op:", Quick: 12, Thor: 12}, {Key: "tag:failure-at:", Quick: 16, Thor: 16}},
 	})
 }
